@@ -16,10 +16,18 @@ declares it, its name there); `flatten` then rebuilds the module **by name**.  P
                                     a child's port is the very net its parent connects to it, an internal
                                     signal is a net of its own per instance path;
 * `walk_paths`                      every leaf's path extends the path of the module it was found under.
-That `walk`'s labelling is the connectivity of the hierarchy is checked per design against the independent
-declarative semantics `Sem.src` (correspondence), as is every name the implementation produces.
+* `walk_labels_are_connectivity`, `flatten_preserves_connectivity`   connectivity of the hierarchy is the
+                                    equivalence closure of "a child's port is the signal its instantiator connects to it"
+                                    (`Connected`, Lemmas/FlattenSound.lean); two leaf terminals get one net id — and, when
+                                    `flatten` returns, sit on one signal of the flat module — **iff** the signals they are attached
+                                    to are connected in the hierarchy; a terminal sits on a port of the flat module iff it is
+                                    connected to that port of `m`.  Hypothesis `WFH`: instance names are unique within a module and
+                                    an instance binds a port at most once (dict keys in Hdl21).
+The correspondence still compares every design with the independent declarative semantics `Sem.src`, and every name the
+implementation produces with the model's.
 -/
 import Hdl21Model.Flatten
+import Hdl21Model.Lemmas.FlattenSound
 namespace Hdl21.Props.C16
 open Hdl21.Flatten
 
@@ -202,6 +210,56 @@ theorem walk_unknown_signal_rejected (m : FMod) (parents : List Name) (env : Env
     (h : envGet env key = none) (hk : ¬ (key ∈ m.signals ∨ key ∈ m.ports)) :
     bindKey m parents env key = none := by
   simp [bindKey, h, hk]
+
+/-! ### connectivity -/
+
+/-- Every leaf terminal is labelled with the root of the net it is attached to; so two terminals carry one net id
+    iff the signals their instantiators connect them to are connected in the hierarchy. -/
+theorem walk_labels_are_connectivity {mods : Nat → Option FMod} {fuel : Nat} {top : FMod} {nodes : List FNode}
+    (wf : WFH mods top)
+    (hw : walk mods fuel top [] (top.signals.map (fun s => (s, ([], s))) ++ top.ports.map (fun s => (s, ([], s)))) = some nodes)
+    {n₁ n₂ : FNode} (h₁ : n₁ ∈ nodes) (h₂ : n₂ ∈ nodes) {c₁ c₂ : Name × NetId} (hc₁ : c₁ ∈ n₁.conns) (hc₂ : c₂ ∈ n₂.conns) :
+    ∃ (π₁ π₂ : List Name) (m₁ m₂ : FMod) (i₁ i₂ : FInst) (s₁ s₂ : Name),
+      At mods top π₁ m₁ ∧ i₁ ∈ m₁.insts ∧ n₁.path = π₁ ++ [i₁.name] ∧ (c₁.1, s₁) ∈ i₁.conns ∧
+      At mods top π₂ m₂ ∧ i₂ ∈ m₂.insts ∧ n₂.path = π₂ ++ [i₂.name] ∧ (c₂.1, s₂) ∈ i₂.conns ∧
+      (c₁.2 = c₂.2 ↔ Connected mods top (π₁, s₁) (π₂, s₂)) ∧
+      (∀ q, c₁.2 = ([], q) ↔ Connected mods top (π₁, s₁) ([], q)) := by
+  obtain ⟨π₁, m₁, i₁, k₁, hat₁, hi₁, _, hp₁, hl₁, _⟩ := walk_labels mods top fuel top [] _ nodes .root envOK_top hw n₁ h₁
+  obtain ⟨π₂, m₂, i₂, k₂, hat₂, hi₂, _, hp₂, hl₂, _⟩ := walk_labels mods top fuel top [] _ nodes .root envOK_top hw n₂ h₂
+  obtain ⟨s₁, hs₁, hr₁⟩ := hl₁ c₁.1 c₁.2 hc₁
+  obtain ⟨s₂, hs₂, hr₂⟩ := hl₂ c₂.1 c₂.2 hc₂
+  refine ⟨π₁, π₂, m₁, m₂, i₁, i₂, s₁, s₂, hat₁, hi₁, hp₁, hs₁, hat₂, hi₂, hp₂, hs₂, ?_, ?_⟩
+  · exact (connected_iff_same_root wf hr₁ hr₂).symm
+  · intro q
+    exact (connected_iff_same_root wf hr₁ (Root.top (s := q))).symm
+
+/-- `flatten` connects two leaf terminals, or a terminal and a port bit, if and only if they are connected in `m`. -/
+theorem flatten_preserves_connectivity {mods : Nat → Option FMod} {fuel : Nat} {top : FMod} {F : Flat}
+    (wf : WFH mods top) (h : flatten mods fuel top = .ok F) :
+    ∃ nodes, walk mods fuel top [] (top.signals.map (fun s => (s, ([], s))) ++ top.ports.map (fun s => (s, ([], s)))) = some nodes ∧
+      F.insts = nodes.map (fun n => { name := leafName n, kind := n.kind, conns := n.conns.map fun c => (c.1, netName c.2) }) ∧
+      ∀ n₁ ∈ nodes, ∀ n₂ ∈ nodes, ∀ c₁ ∈ n₁.conns, ∀ c₂ ∈ n₂.conns,
+        ∃ (π₁ π₂ : List Name) (i₁ i₂ : FInst) (s₁ s₂ : Name),
+          n₁.path = π₁ ++ [i₁.name] ∧ (c₁.1, s₁) ∈ i₁.conns ∧ n₂.path = π₂ ++ [i₂.name] ∧ (c₂.1, s₂) ∈ i₂.conns ∧
+          -- same signal of the flat module  ⇔  connected in the hierarchy
+          (netName c₁.2 = netName c₂.2 ↔ Connected mods top (π₁, s₁) (π₂, s₂)) ∧
+          -- on port q of the flat module  ⇔  connected to port q of the top module
+          (∀ q ∈ top.ports, netName c₁.2 = q ↔ Connected mods top (π₁, s₁) ([], q)) := by
+  obtain ⟨nodes, hw, hnc, _, _, hi⟩ := flatten_ok h
+  refine ⟨nodes, hw, hi, ?_⟩
+  intro n₁ h₁ n₂ h₂ c₁ hc₁ c₂ hc₂
+  obtain ⟨π₁, π₂, m₁, m₂, i₁, i₂, s₁, s₂, _, _, hp₁, hs₁, _, _, hp₂, hs₂, hiff, hport⟩ :=
+    walk_labels_are_connectivity wf hw h₁ h₂ hc₁ hc₂
+  refine ⟨π₁, π₂, i₁, i₂, s₁, s₂, hp₁, hs₁, hp₂, hs₂, ?_, ?_⟩
+  · rw [← hiff]
+    exact ⟨fun e => netClash_false hnc (mem_usedIds_of_conn h₁ hc₁) (mem_usedIds_of_conn h₂ hc₂) e, fun e => by rw [e]⟩
+  · intro q hq
+    rw [← hport q]
+    constructor
+    · intro e
+      have : netName c₁.2 = netName (([], q) : NetId) := by rw [e]; simp [netName, joinNames]
+      exact netClash_false hnc (mem_usedIds_of_conn h₁ hc₁) (mem_usedIds_of_port hq) this
+    · intro e; rw [e]; simp [netName, joinNames]
 
 /-! Non-vacuity: a two-level hierarchy flattens; the same with a top-level signal named like the inner net is refused. -/
 def inner : FMod := ⟨['I'], [['a'], ['b']], [['x']],
